@@ -22,7 +22,8 @@ RULE = ("one run = one document of a class (pure gfa1 / pure gfa2 / neutral / mi
         "orders with flush placements and version/dialect parameters; distinct = distinct (document, "
         "order, flush positions) digests")
 PROBES = ["pure", "neutral", "mixed_content", "mixed_vn", "mixed_param", "mixed_rgfa", "flush_midway",
-          "flush_repeated", "queue_nonempty_at_decision", "failing_record_in_queue", "deciding_last"]
+          "flush_repeated", "queue_nonempty_at_decision", "failing_record_in_queue", "deciding_last",
+          "header_contradiction_offered"]
 
 OTHER1 = ["S\tzz9\t5\t*", "E\t*\tzz1+\tzz2-\t0\t1\t0\t1\t*", "G\t*\tzz1+\tzz2-\t5\t*", "U\tzz8\tzz1",
           "O\tzz7\tzz1+", "F\tzz1\tr+\t0\t1\t0\t1\t*", "X\tfoo"]
@@ -267,6 +268,22 @@ def run(scn, st):
                                  "order %r entry %s flushes %r: lines delivered once appear %s: extra %r missing %r" %
                                  (perm, op["entry"], op.get("flushes"), "differently", extra[:3], missing[:3]),
                                  entry=op["entry"], what=("extra" if extra else "") + ("missing" if missing else ""))
+        if cfg["class"] == "pure" and not any("VN:Z" in ln for ln in lines) and len(perm) % 2 == 0:
+            # the version decided by the content cannot be contradicted afterwards through the header either:
+            # the header is given the other version (refused), or the Gfa would write a document it refuses to read
+            other = "2.0" if expect == "gfa1" else "1.0"
+            how = ("attr", "set", "add")[len(lines) % 3]
+            hdr = g.header
+            r = core.call(setattr, hdr, "VN", other) if how == "attr" else (
+                core.call(hdr.set, "VN", other) if how == "set" else core.call(hdr.add, "VN", other))
+            st.count("probe.header_contradiction_offered")
+            st.count("oracle.header_contradiction")
+            if r.ok:
+                back = core.call(gfapy.Gfa, "\n".join(ob.text_lines(g)), vlevel=max(1, cfg["vlevel"]))
+                if not back.ok and back.excname == "VersionError":
+                    raise core.Violation("mixed-accepted",
+                                         "a %s Gfa accepted header.VN = %r (%s); what it writes now is refused with "
+                                         "VersionError" % (expect, other, how), klass="header-api", entry=how)
 
 
 from .c03 import simplify as _simp  # noqa: E402
